@@ -51,6 +51,11 @@ def make (spec0):
     if rng.random () < 0.1:
         spec = gen.curve_spec (rng) or spec
     gen.add_sources (rng, spec, nmax = 4)
+    # in-phase arrays: several sources with exactly the same voltage (or all but one)
+    re = np.random.default_rng ([spec0 ['seed'], 73, spec0 ['i']])
+    if len (spec ['src']) > 1 and re.random () < 0.3:
+        for s in spec ['src'] [1: len (spec ['src']) if re.random () < 0.6 else -1] or spec ['src'] [1:]:
+            s ['v'] = list (spec ['src'][0]['v'])
     gen.taper_some (np.random.default_rng ([spec0 ['seed'], 71, spec0 ['i']]), spec, 0.15)
     rl = np.random.default_rng ([spec0 ['seed'], 72, spec0 ['i']])
     if rl.random () < 0.3:
@@ -211,6 +216,20 @@ def check (spec0):
             judge ('forms.' + mode, rel (np.array (m4.current), I0), tol, 'sources given as %s: currents differ from the same sources given by absolute pulse number' % ([x ['p'] for x in s4 ['src']],))
             if len (src) == 1:
                 break
+    # (e) a voltage given on the command line without a pulse drives the program's default pulse (5) with that voltage
+    if len (I0) >= 5:
+        V  = complex (src [0][1]) * (0.7 - 0.4j)
+        a5 = [x for x in gen.to_argv (dict (spec, src = [], loads = [l for l in spec.get ('loads') or [] if 'at' not in l]), with_sources = False)]
+        i5 = a5.index ('--excitation-pulse')
+        a5 = a5 [:i5] + a5 [i5 + 2:] + ['--excitation-voltage=' + gen.cplx (V.real, V.imag)]
+        m5 = common.build_argv (a5)
+        mon ['default-pulse'] = 1
+        if len (m5.sources) != 1 or m5.sources [0].idx != 4 or abs (complex (m5.sources [0].voltage) - V) > 1e-12 * abs (V):
+            viol.append (dict (monitor = 'default-pulse', key = 'default-pulse-voltage', msg = '--excitation-voltage=%r without --excitation-pulse: sources %r' % (V, [(x.idx + 1, complex (x.voltage)) for x in m5.sources])))
+        else:
+            observe.solve (m5)
+            zz = V / complex (m5.current [4])
+            judge ('default-pulse', abs (complex (m5.sources [0].impedance) - zz) / abs (zz), 1e-12, 'default pulse: impedance %r != V / I = %r' % (m5.sources [0].impedance, zz))
     sig = gen.signature (spec, m, extra = ['feeds' + ''.join (sorted (kinds)), 'valid%d' % ok])
     nontrivial = len (spec ['src']) > 1 or ('g' in kinds) or ('j' in kinds) or abs (c.imag) > 0
     return dict ( status = 'violation' if viol else 'held', sig = sig, nontrivial = bool (nontrivial)
